@@ -52,7 +52,7 @@ def parseOpts (kv : List (String × String)) : Opts :=
     mute := kvGet kv "mute" "0" == "1",
     cap := (optNat (kvGet kv "cap")).getD 0,
     anyErrCode := optNat (kvGet kv "E"),
-    codeFilter := (let w := kvGet kv "w"; if w == "-" then none else some (w.splitOn ",")),
+    codeFilter := (let w := kvGet kv "w"; if w == "-" then none else some ((w.splitOn ",").map ("E" ++ ·))),
     triggerPeriod := optNat (kvGet kv "period"),
     customCdps := optNat (kvGet kv "cdps"),
     customPht := optNat (kvGet kv "pht"),
@@ -102,6 +102,30 @@ def showShown (s : Shown) : String :=
   | .err f => s!"{f.offset}:{f.code}"
   | .fatal => "FATAL"
   | .custom c => s!"custom:{c}"
+
+def natList (s : String) : List Nat := if s == "-" || s == "" then [] else (s.splitOn ",").filterMap (·.toNat?)
+def strList (s : String) : List String := if s == "-" || s == "" then [] else s.splitOn ","
+def pairList (s : String) : List (Nat × Nat) :=
+  if s == "-" || s == "" then [] else (s.splitOn ",").filterMap fun t =>
+    match t.splitOn "/" with
+    | [a, b] => match a.toNat?, b.toNat? with | some x, some y => some (x, y) | _, _ => none
+    | _ => none
+def optStr (s : String) : Option String := if s == "-" then none else some s
+
+def parseStatsRec (kv : List (String × String)) : StatsRec :=
+  { rdhsSeen := (optNat (kvGet kv "rdhs_seen")).getD 0, rdhsFiltered := (optNat (kvGet kv "rdhs_filtered")).getD 0,
+    rdhVersion := optNat (kvGet kv "rdh_version"), hbfsSeen := (optNat (kvGet kv "hbfs_seen")).getD 0,
+    payloadSize := (optNat (kvGet kv "payload_size")).getD 0, dataFormat := optNat (kvGet kv "data_format"),
+    links := natList (kvGet kv "links"), feeId := natList (kvGet kv "fee_id"), systemId := optStr (kvGet kv "system_id"),
+    runTriggerType := (match (kvGet kv "run_trigger_type").splitOn ":" with
+      | [a, b] => a.toNat?.map (fun n => (n, b))
+      | _ => none),
+    layerStavesSeen := pairList (kvGet kv "layer_staves_seen"), trig := natList (kvGet kv "trig"),
+    fatalError := optStr (kvGet kv "fatal_error"), reportedErrors := strList (kvGet kv "reported_errors"),
+    customChecksStatsErrors := strList (kvGet kv "custom_checks_stats_errors"),
+    totalErrors := (optNat (kvGet kv "total_errors")).getD 0, uniqueErrorCodes := strList (kvGet kv "unique_error_codes"),
+    stavesWithErrors := (let v := kvGet kv "staves_with_errors"; if v == "-" then none else some (pairList v)),
+    alpide := (let v := kvGet kv "alpide"; if v == "-" then none else some (natList v)) }
 
 def handle (line : String) : String :=
   match line.trimAscii.toString.splitOn " " with
@@ -177,6 +201,11 @@ def handle (line : String) : String :=
         | .link l => s!"link:{l}" | .fee f => s!"fee:{f}" | .rdhSeen n => s!"seen:{n}"
         | .rdhFiltered n => s!"filtered:{n}" | .payloadSize n => s!"payload:{n}"
       s!"n={r.packets.length} " ++ joinSp pk ++ " | " ++ joinSp ms
+  | "statscmp" :: rest =>
+    let a := parseStatsRec (parseKv (rest.takeWhile (· != "||")))
+    let b := parseStatsRec (parseKv ((rest.dropWhile (· != "||")).drop 1))
+    let ms := validateOther a b
+    if ms.isEmpty then "match" else "mismatch " ++ ",".intercalate ms
   | "run" :: rest =>
     let kv := parseKv rest
     match parseHex (kvGet kv "data") with
